@@ -589,6 +589,15 @@ func genDoc(rng *rand.Rand, docID string, idt *didIdent) (*didtypes.DIDDocument,
 		if len(foreignControllers) > 0 && rng.Intn(2) == 0 {
 			c = didtypes.JSONStringOrStrings{foreignControllers[rng.Intn(len(foreignControllers))]}
 		}
+		// lists: the protobuf form keeps repeated entries and their order, and so must every other form of the document
+		switch rng.Intn(4) {
+		case 0:
+			c = append(c, c[0])
+		case 1:
+			if len(foreignControllers) > 0 {
+				c = append(c, foreignControllers[rng.Intn(len(foreignControllers))], docID)
+			}
+		}
 		d.Controller = &c
 	}
 	if rng.Intn(5) == 0 {
